@@ -1168,3 +1168,87 @@ Proof.
   rewrite E in *. eapply IH; eauto.
 Qed.
 End ShellProofs.
+
+(* ------------------------------------------------------------------ *)
+(* (6) config_for_trial covers every trial the searcher state mentions: *)
+(*     the state handed to the surrogate can always be constructed       *)
+(* ------------------------------------------------------------------ *)
+Lemma step_known cfg st e st' d : wf_config cfg = true -> step cfg st e = Ok (st', d) ->
+  forall t, find t (trials st) <> None -> find t (trials st') <> None.
+Proof.
+  intros WF HS t Ht. destruct (Z.eq_dec t (trial_of e)) as [->|Hne].
+  2:{ destruct (step_same_for cfg WF st e st' d t HS) as [_ HF]; [destruct e; exact Hne|]. rewrite HF. exact Ht. }
+  destruct e as [t0 b|t0 r v cont|t0 b|t0 r v|t0]; cbn [trial_of step] in *.
+  - unfold on_start in HS. destruct (find t0 (trials st)); [discriminate | congruence].
+  - set (st0 := {| srch := srch st; trials := trials st; reps := _ |}) in HS.
+    destruct (on_trial_result cfg st0 t0 r v cont) as [[st1 d1]|] eqn:E; cbn [bind] in HS; [|discriminate].
+    inversion HS; subst. assert (H1 : find t0 (trials st1) <> None).
+    { unfold on_trial_result in E. cbn [trials st0] in E. destruct (find t0 (trials st)) as [rec|] eqn:EF; [|discriminate].
+      destruct (dec rec); try (inversion E; subst; cbn; congruence).
+      destruct (on_task_report cfg rec r cont) as [[rec1 ti]|]; cbn [bind] in E; [|discriminate].
+      destruct (ignore_data ti); [inversion E; subst; cbn; rewrite find_upd_same; discriminate|].
+      destruct (update_searcher _ _ _ _ _ _) as [[du s1]|]; cbn [bind] in E; [|discriminate].
+      destruct (lur_step _ _ _) as [[du2 rec3]|]; cbn [bind] in E; [|discriminate].
+      inversion E; subst; cbn; rewrite find_upd_same; discriminate. }
+    destruct d1; auto; unfold on_trial_remove; destruct (find t0 (trials st1)) eqn:EF; try congruence; cbn; rewrite find_upd_same; discriminate.
+  - unfold on_resume in HS. destruct (sty cfg); [discriminate|]. destruct (find t0 (trials st)) as [rec|]; [|discriminate].
+    destruct (paused_at _ _); [|discriminate]. destruct (negb _); [discriminate|]. destruct (decision_eqb _ _); [discriminate|].
+    destruct (register_all _ _ _); cbn [bind] in HS; [|discriminate]. inversion HS; subst. cbn. rewrite find_upd_same. discriminate.
+  - unfold on_trial_complete in HS. destruct (find t0 (trials st)) as [rec|]; cbn [bind] in HS; [|discriminate]. inversion HS; subst.
+    cbn. rewrite find_upd_same. discriminate.
+  - inversion HS; subst. unfold on_trial_error. destruct (find t0 (trials st)) eqn:EF; [|congruence]. cbn. rewrite find_upd_same. discriminate.
+Qed.
+
+Lemma step_failed_subset cfg st e st' d t : step cfg st e = Ok (st', d) -> In t (failed (srch st')) -> In t (failed (srch st)) \/ e = Fail t.
+Proof.
+  intros HS Hin. destruct e as [t0 b|t0 r v cont|t0 b|t0 r v|t0];
+    try (left; rewrite <- (step_failed_eq _ _ _ _ _ HS); [exact Hin | intros; discriminate]).
+  cbn [step] in HS. inversion HS; subst. unfold on_trial_error in Hin.
+  assert (Hin' : In t (failed (evaluation_failed (srch st) t0))) by (destruct (find t0 (trials st)); exact Hin).
+  unfold evaluation_failed, mark_failed in Hin'. cbn [failed cleanup_pending] in Hin'.
+  destruct (mem_Z t0 (failed (srch st))); [left; exact Hin'|].
+  apply in_app_or in Hin' as [H|[<-|[]]]; [left; exact H | right; reflexivity].
+Qed.
+
+Definition FailedKnown (st : state) : Prop := forall t, In t (failed (srch st)) -> find t (trials st) <> None.
+
+Lemma run_failed_known cfg h : wf_config cfg = true -> forall st, FailedKnown st -> legal_hist cfg st h ->
+  forall st', run cfg st h = Ok st' -> FailedKnown st'.
+Proof.
+  intro WF. induction h as [|e h IH]; intros st HK HL st'; cbn [run]; [intro H; inversion H; subst; exact HK|].
+  cbn [legal_hist] in HL. destruct HL as [Hl HL]. destruct (step cfg st e) as [[st1 d]|] eqn:E; cbn [bind]; [|discriminate].
+  apply IH; [|exact HL]. intros t Ht. destruct (step_failed_subset _ _ _ _ _ _ E Ht) as [H|H].
+  - apply (step_known cfg st e st1 d WF E). apply HK. exact H.
+  - subst e. apply (step_known cfg st (Fail t) st1 d WF E). cbn [legal_b] in Hl. destruct (find t (trials st)); [discriminate | discriminate].
+Qed.
+
+(* config_for_trial (keys = the trials the scheduler has started) covers observed, pending and failed trials *)
+Lemma legal_covers cfg h st : wf_config cfg = true -> legal_hist cfg init h -> run cfg init h = Ok st ->
+  check_trial_ids (map fst (trials st)) (srch st) = true.
+Proof.
+  intros WF HL HR. apply check_trial_ids_spec. intros t Ht.
+  pose proof (legal_run_inv _ _ _ WF HL HR) as [_ [_ Hall]]. specialize (Hall t).
+  assert (HK : FailedKnown st) by (eapply (run_failed_known cfg h WF init); eauto; intros x []).
+  destruct (find t (trials st)) as [rec|] eqn:Hf; [eapply find_Some_keys; eauto|]. exfalso.
+  destruct Hall as [A [B _]]. unfold state_trials in Ht. apply in_app_or in Ht as [Ht|Ht].
+  - apply in_map_iff in Ht as [[[t0 r] c] [E Hin]]. cbn in E. subst t0. exact (A r c Hin).
+  - apply in_app_or in Ht as [Ht|Ht].
+    + apply in_map_iff in Ht as [[t0 p] [E Hin]]. cbn in E. subst t0. exact (B p Hin).
+    + apply (HK t Ht). exact Hf.
+Qed.
+
+(* the state the surrogate is fitted to, for every legal history and every down-sampling choice *)
+Lemma fitted_data cfg h st choose cap : wf_config cfg = true -> legal_hist cfg init h -> run cfg init h = Ok st -> choose_ok choose ->
+  exists s', cap_state choose cap (map fst (trials st)) (srch st) = Some (map fst (trials st), s') /\
+    length (obs s') = Nat.min (length (obs (srch st))) cap /\
+    pend s' = pend (srch st) /\ failed s' = failed (srch st) /\
+    ((length (obs (srch st)) <= cap)%nat -> obs s' = obs (srch st)) /\
+    NoDup (map fst (obs s')) /\
+    forall t r c, In ((t, r), c) (obs s') ->
+      In ((t, r), c) (obs (srch st)) /\ exists v, lookup_rep (t, r) (first_reports h []) = Some v /\ (c == crit cfg v)%Q.
+Proof.
+  intros WF HL HR Hch. destruct (obs_equal_first_report cfg h st WF HL HR) as [Hnd Hval].
+  destruct (cap_state_spec choose cap _ (srch st) Hch (legal_covers cfg h st WF HL HR)) as [s' [E [A [B [C [D [F G]]]]]]].
+  exists s'. split; [exact E|]. split; [exact B|]. split; [exact C|]. split; [exact D|]. split; [exact F|]. split; [exact (G Hnd)|].
+  intros t r c Hin. split; [apply A; exact Hin | apply Hval; apply A; exact Hin].
+Qed.
